@@ -272,6 +272,7 @@ inductive CoReq where
   | rule (anchor : Bytes) (r : Rule)                    -- `add_webentity_creation_rule_iter(prefix, pattern)`
   | queryPages (prefixes : List Bytes)                  -- `get_webentity_pages_iter(prefixes)`
   | queryNet (out auto : Bool)                          -- `get_webentities_links_iter(out, include_auto)`
+  | queryOther (q : QSt)                                -- the seven other read-only generators, in their initial states
 deriving Repr, DecidableEq, Inhabited
 
 /-- the generator object before its first `next()` -/
@@ -280,6 +281,7 @@ def CoReq.init : CoReq → CoSt
   | .rule a r => .rule (RuleSt.init a r)
   | .queryPages ps => .pages { prefixes := ps }
   | .queryNet o a => .net { out := o, auto := a }
+  | .queryOther q => .query q
 
 /-- the LRUs the request submits as pages, with their (mustCrawl, mayCrawl) marks: those of the atomic
     request (`Op.pages`) -/
@@ -301,6 +303,7 @@ def CoReq.Wf : CoReq → Prop
   | .rule a _ => lruIter a ≠ []
   | .queryPages ps => ∀ pf ∈ ps, lruIter pf ≠ []
   | .queryNet _ _ => True
+  | .queryOther _ => True
 
 theorem CoReq.todo_init (r : CoReq) : r.init.todo = r.pages := by
   cases r <;> rfl
@@ -316,6 +319,7 @@ theorem CoReq.init_ok (s : State) (t : T) (r : CoReq) (h : r.Wf) : CoOk s t r.in
   | rule a r => exact RuleOk.init s t a r h
   | queryPages ps => exact PagesOk.init s t ps h
   | queryNet o a => trivial
+  | queryOther q => trivial
 
 theorem CoReq.op_pages (r : CoReq) (o : Op) (h : r.op = some o) : o.pages = r.pages := by
   cases r <;> simp only [CoReq.op, Option.some.injEq] at h <;> first | (subst h; rfl) | cases h
@@ -326,6 +330,7 @@ theorem CoReq.op_wf (r : CoReq) (o : Op) (h : r.op = some o) (hw : r.Wf) : OpWf 
   | rule a r => simp only [CoReq.op, Option.some.injEq] at h; subst h; exact hw
   | queryPages ps => cases h
   | queryNet o a => cases h
+  | queryOther q => cases h
 
 theorem CoReq.pages_of_op_none (r : CoReq) (h : r.op = none) : r.pages = [] := by
   cases r <;> first | rfl | cases h
@@ -341,6 +346,7 @@ theorem CoReq.pages_marks (r : CoReq) : ∀ x ∈ r.pages, x.2.1 = x.2.2 := by
   | rule a r => intro x hx; simp [CoReq.pages] at hx
   | queryPages ps => intro x hx; simp [CoReq.pages] at hx
   | queryNet o a => intro x hx; simp [CoReq.pages] at hx
+  | queryOther q => intro x hx; simp [CoReq.pages] at hx
 
 theorem sysOk_init {s : State} {t : T} (hs : Shape s t) (hi : Inv s t) (reqs : List CoReq)
     (hwf : ∀ r ∈ reqs, r.Wf) : SysOk (s, reqs.map CoReq.init) t :=
@@ -403,6 +409,7 @@ theorem C16_pages_any_schedule {s : State} {t : T} (hs : Shape s t) (hi : Inv s 
     | rule a r => trivial
     | queryPages ps => exact absurd rfl hop
     | queryNet o a => exact absurd rfl hop
+    | queryOther q => exact absurd rfl hop
 
 /-- **C16, final pages, independent of the schedule**: once every writer generator has returned, the pages of the
     index are the pages it had before plus the pages submitted by the requests, and the crawled pages
@@ -712,6 +719,7 @@ theorem C16_no_writer_fails {s : State} {t : T} (hs : Shape s t) (hi : Inv s t) 
       exact ⟨hwf _ hr', hcanon _ hr'⟩
     | queryPages ps => trivial
     | queryNet o a => trivial
+    | queryOther q => trivial
   obtain ⟨okf, hfail⟩ := sched_no_failure sched (s, reqs.map CoReq.init) t (sysOk_init hs hi reqs hwf) hr hcan
   refine ⟨okf, fun i r e hi' hop hm => ?_⟩
   have hget : (s, reqs.map CoReq.init).2[i]? = some r.init := by
@@ -722,6 +730,7 @@ theorem C16_no_writer_fails {s : State} {t : T} (hs : Shape s t) (hi : Inv s t) 
   | rule a r => trivial
   | queryPages ps => exact absurd rfl hop
   | queryNet o a => exact absurd rfl hop
+  | queryOther q => exact absurd rfl hop
 
 /-- the atomic counterparts of well-formed generator requests do not raise `KeyError` on an index satisfying
     `RulesOk` -/
@@ -752,6 +761,9 @@ theorem noKeyErr_of_rulesOk : ∀ (reqs : List CoReq) (s : State) (t : T), Shape
       simp only [List.filterMap_cons, CoReq.op]
       exact ih s t h ok
     | queryNet o a =>
+      simp only [List.filterMap_cons, CoReq.op]
+      exact ih s t h ok
+    | queryOther q =>
       simp only [List.filterMap_cons, CoReq.op]
       exact ih s t h ok
 
